@@ -120,6 +120,7 @@ def judge_unlink(spec, seq, a, b, base, caching=False):
     Vertex.NEIGHBOR_CACHING = caching
     if caching:
         warm_all(w2)
+        raising_first(w2)
     try:
         explicit.unlink(w2.v[a], w2.v[b])
     except Exception as e:  # noqa: BLE001
@@ -147,6 +148,16 @@ def warm_all(w):
                     pass
 
 
+def raising_first(w):
+    """with caching on: the calls that may raise (unknown link class under the raising mode) come first,
+    for every pair and setting -- a failed call must not spoil the valid ones that follow"""
+    for a in range(len(w.v)):
+        for b in range(len(w.v)):
+            for ds in (True, False):
+                for fn in FILTERS:
+                    call_fl(w.v[a], w.v[b], ds, UNKS["ERR"], FL_FILTERS[fn])
+
+
 def per_state(spec, seq, w):
     ev, nt, viols = _per_state(spec, seq, w, False)
     # the same evaluation with neighbour caching on and warm memos (find_links must not depend on it)
@@ -164,24 +175,31 @@ def _per_state(spec, seq, w, caching):
     viols = []
     nv = len(w.v)
     sq = [list(o) for o in seq]
-    for a in range(nv):
+    # with caching on the table is gone through twice: the second pass sees whatever the first one --
+    # including its calls that raised -- left behind
+    if caching:
+        raising_first(w)
+    for npass in ((1, 2) if caching else (1,)):
+      if viols:
+          break
+      for a in range(nv):
         for b in range(nv):
-            joined = any((l.vertices[0] is w.v[a] and l.vertices[1] is w.v[b]) or
-                         (l.vertices[0] is w.v[b] and l.vertices[1] is w.v[a]) for l in w.v[a].links)
-            for ds in (True, False):
-                for un in UNKS:
-                    for fn in FILTERS:
-                        evals += 2
-                        nontriv += 2 * joined
-                        bad, got = judge_set(w, a, b, ds, un, fn)
-                        if bad:
-                            viols.append((f"find_links|ds={ds}|unknown={un}|filter={fn}|{'a=b' if a == b else 'a!=b'}|{bad}{'|caching-on' if caching else ''}",
-                                          {"seq": sq, "space": _plain(spec), "case": ["set", a, b, ds, un, fn], "caching": caching}))
-                            continue
-                        bad = judge_count(w, a, b, ds, un, fn, got)
-                        if bad:
-                            viols.append((f"count|ds={ds}|unknown={un}|filter={fn}|{'a=b' if a == b else 'a!=b'}|{bad}{'|caching-on' if caching else ''}",
-                                          {"seq": sq, "space": _plain(spec), "case": ["count", a, b, ds, un, fn], "caching": caching}))
+              joined = any((l.vertices[0] is w.v[a] and l.vertices[1] is w.v[b]) or
+                           (l.vertices[0] is w.v[b] and l.vertices[1] is w.v[a]) for l in w.v[a].links)
+              for ds in (True, False):
+                  for un in UNKS:
+                      for fn in FILTERS:
+                          evals += 2
+                          nontriv += 2 * joined
+                          bad, got = judge_set(w, a, b, ds, un, fn)
+                          if bad:
+                              viols.append((f"find_links|ds={ds}|unknown={un}|filter={fn}|{'a=b' if a == b else 'a!=b'}|{bad}{'|caching-on' if caching else ''}{'|second-pass' if npass == 2 else ''}",
+                                            {"seq": sq, "space": _plain(spec), "case": ["set", a, b, ds, un, fn], "caching": caching, "npass": npass}))
+                              continue
+                          bad = judge_count(w, a, b, ds, un, fn, got)
+                          if bad:
+                              viols.append((f"count|ds={ds}|unknown={un}|filter={fn}|{'a=b' if a == b else 'a!=b'}|{bad}{'|caching-on' if caching else ''}{'|second-pass' if npass == 2 else ''}",
+                                            {"seq": sq, "space": _plain(spec), "case": ["count", a, b, ds, un, fn], "caching": caching, "npass": npass}))
     if not viols and w.l:
         base = answers(w)
         if nv > 4:        # larger graphs (families): a few pairs only
@@ -210,6 +228,7 @@ def replay(rec, verbose=False):
     Vertex.NEIGHBOR_CACHING = caching
     if caching:
         warm_all(w)
+        raising_first(w)
     case = rec["case"]
     if verbose:
         from ..structure import observe
@@ -224,6 +243,34 @@ def replay(rec, verbose=False):
 def _replay_case(rec, spec, seq, w, case, caching, verbose):
     if case[0] in ("set", "count"):
         _, a, b, ds, un, fn = case
+        if rec.get("npass") == 2:
+            # the whole first pass first (what it leaves behind is what the recorded call reads)
+            for a1 in range(len(w.v)):
+                for b1 in range(len(w.v)):
+                    for ds1 in (True, False):
+                        for un1 in UNKS:
+                            for fn1 in FILTERS:
+                                judge_set(w, a1, b1, ds1, un1, fn1)
+            for a1 in range(len(w.v)):
+                for b1 in range(len(w.v)):
+                    for ds1 in (True, False):
+                        for un1 in UNKS:
+                            for fn1 in FILTERS:
+                                if (a1, b1, ds1, un1, fn1) == (a, b, ds, un, fn):
+                                    break
+                                judge_set(w, a1, b1, ds1, un1, fn1)
+                            else:
+                                continue
+                            break
+                        else:
+                            continue
+                        break
+                    else:
+                        continue
+                    break
+                else:
+                    continue
+                break
         bad, got = judge_set(w, a, b, ds, un, fn)
         if case[0] == "count" and not bad:
             bad = judge_count(w, a, b, ds, un, fn, got)
